@@ -35,6 +35,10 @@ def handleC20 (toks : List String) : String :=
     match n.toNat?, parseRats? rest with
     | some _, some xs => showRats (Gen.rate (fun _ => (⟨xs⟩ : Vec)) ⟨[]⟩).d
     | _, _ => err "format"
+  | "phase" :: n :: tol :: rest =>
+    match n.toNat?, parseRat? tol, parseRats? rest with
+    | some n, some tol, some ds => toString (phaseSteps tol n ds)
+    | _, _, _ => err "format"
   | _ => err "op"
 
 def main : IO Unit := runDriver handleC20
